@@ -59,6 +59,21 @@ def run(ctx):
         if rng.random() < 0.15:
             b = PC.tcp_segment(rng, wild=rng.random() < 0.3); e = 'TCP'
         scripts.append(('m%d' % i, ['parse %s x%s' % (e, b.hex()), 'ser', 'rt ' + e]))
+    # every typed (struct / byte-string / list valued) setter with a sweep of values, alone and under IPv6, in front of a payload
+    import c04 as R4
+    fl = [l.split() for l in C.run_harness('h_pkt', [('fl', ['fields'])]).get('fl', [])]
+    dflt = set(acc['default_constructible'])
+    for t in fl:
+        if len(t) == 4 and t[2] in ('7', '8', '9') and t[0] in dflt and (t[0], t[1]) not in R4.TYPED_EXCLUDE:
+            prep = R4.PREP.get((t[0], t[1]), R4.PREP.get(t[0], []))
+            for v in list(range(0, 24)) + [rng.randrange(1 << 64) for _ in range(4 if quick else 60)]:
+                scripts.append(('y%d' % len(scripts), ['new ' + t[0]] + prep + ['set 0 %s %d' % (t[1], v), 'raw x5041594c4f414421', 'ser']))
+                if t[0] == 'ICMPv6':
+                    scripts.append(('y%d' % len(scripts), ['new IPv6', 'push ICMPv6'] + [p.replace('set 0', 'set 1') for p in prep] + ['set 1 %s %d' % (t[1], v), 'raw x5041594c4f414421', 'ser', 'ser']))
+    # cached layers in front of a payload, serialised twice
+    for cname in ('UDP', 'TCP', 'IP', 'ICMP', 'EthernetII'):
+        for n in (0, 1, 8, 36, 300):
+            scripts.append(('k%s%d' % (cname, n), ['newc ' + cname] + (['raw x' + bytes(rng.randrange(256) for _ in range(n)).hex()] if n else []) + ['ser', 'ser']))
     h = C.run_harness('h_pkt', scripts)
     ctx.cov['evaluations'] += len(scripts)
     nontriv = set()
@@ -67,6 +82,8 @@ def run(ctx):
     for sid, lines in scripts:
         lh = [l for l in h.get(sid, []) if not l.startswith('!~')]
         accepted = sid.startswith('a') or (lh and lh[0].startswith('P '))
+        if sid.startswith('y') and any(l.startswith('E ') for i, l in enumerate(lh) if i < len(lines) and lines[i].startswith('set ')):
+            continue          # the setter refused the value
         if not accepted:
             continue
         bad = judge_ser(lines, lh)
